@@ -1,4 +1,5 @@
 """C12 assembleConstants changes how constants load, not their values."""
+import os
 
 import base64
 import random
@@ -7,7 +8,7 @@ from concurrent.futures import ProcessPoolExecutor
 from vf.core import Report, Bounded, Violation, Ob
 from . import e2e
 
-LEVEL = "exploration"
+LEVEL = "other"
 
 
 def check_indices(teal):
@@ -175,9 +176,37 @@ def gen_case(spec):
     return r
 
 
+def lean_lemma(report):
+    """re-check the side lemma with the installed Lean (seconds); absent/failed Lean => the obligation is undecided, not a violation"""
+    import subprocess
+    import shutil
+    import time
+    from vf.core import VERIF, Ob
+    src = os.path.join(VERIF, "lemmas", "FilterPrefix.lean")
+    t0 = time.time()
+    if not shutil.which("lean"):
+        st, detail = "unknown", "lean not on PATH"
+    else:
+        p = subprocess.run(["lean", src], capture_output=True, text=True, timeout=600)
+        bad = p.returncode != 0 or "error" in p.stdout or "sorry" in p.stdout
+        st, detail = ("unknown" if bad else "discharged"), (p.stdout + p.stderr)[-400:]
+    report.ob(Ob(id="O12.2/lemma/filter-of-sorted-is-prefix", function="lemmas/FilterPrefix.lean (summary S4 of the byteBlock comprehension)", kind="P", status=st,
+                 backend="lean 4 kernel", ms=(time.time() - t0) * 1000, detail="filter (key > t) of a list sorted by non-increasing key == takeWhile (key > t)  " + detail))
+
+
 def run(report: Report, tier, seed):
     report.trust("TEAL literal grammar of spec/avm.py (values of int / byte / addr / method pseudo-ops and of constant blocks)", "spec/avm.py + spec/progsem.py")
-    report.assume("createConstantBlocks is not yet under a pyvc contract: every constant-load site of generated and hand-shaped programs is re-checked (bounded stand-in)")
+    report.assume("under contract (pyvc): createConstantBlocks - every load site of the output denotes the value extract*Value returns for the op it replaces; indices address the emitted block; no KeyError/ValueError/IndexError",
+                  "trusted callee summaries: extractIntValue / extractBytesValue / extractAddrValue / extractMethodSigValue return 'the value the literal denotes' (their literal decoding is the bounded part below)",
+                  "summarised statements with a syntactic guard on the real source: sorted(d, key=lambda x: d[x], reverse=True) (duplicate-free, non-increasing), the two block comprehensions; "
+                  "the prefix property of the byteBlock filter is lemma filter_eq_takeWhile_of_sorted, machine-checked in lemmas/FilterPrefix.lean",
+                  "constant values are compared by an abstract identity (Python ==/hash on int, str, bytes); ENC(v) = '0x'+v.hex() for bytes, v itself for template names",
+                  "bounded stand-ins: literal decoding, run-time equality of the two programs, option plumbing in compiler.py")
+    from vf.runner import run_contracts
+    from vf.core import use_repo
+    use_repo()
+    run_contracts(report, [("contracts.c12_constants", "CreateConstantBlocks", "O12.2")])
+    lean_lemma(report)
     n = 60 if tier == "quick" else 700
     specs = [{"seed": seed * 100003 + 77000 + i, "version": [3, 4, 5, 6, 7, 8, 9, 10][i % 8], "mode": "Application", "size": 3,
               "options": [{}], "assemble": [False, True]} for i in range(n)]
@@ -192,6 +221,19 @@ def run(report: Report, tier, seed):
     report.bounded.append(Bounded(function="createConstantBlocks on many repeated constants", contract="as above, with more than 4 and more than 255 distinct repeated constants and every byte-literal syntax",
                                   bound="3..300 distinct repeated int / byte constants x versions 3, 10", cases=len(many), distinct_nontrivial=len(many), failures=len(mbad)))
     report.sample({"site": "intc 5 // 1005", "check": "intcblock[5] == 1005"})
+
+    def search(fn, obs):
+        if mbad:
+            m = mbad[0]
+            return {"input": {"many": [m["kind"], m["n"], m["version"]]}, "what": m["problems"][0]}
+        if bad:
+            s0, r0 = bad[0]
+            return {"input": {"spec": s0}, "what": (r0["index_problems"] or [m["what"] for m in r0["mismatches"]])[0]}
+        return None
+    report.settle_undecided(search)
+    report.settle_refuted(search)
+    if any(o.status == "refuted" for o in report.obs):
+        bad, mbad = bad[:0], mbad[:0]      # reported once, with the refuted obligation
     for s, r in bad[:2]:
         what = (r["index_problems"] or [m["what"] for m in r["mismatches"]])[0]
         report.violation(Violation(key=f"asm:{s['seed']}:{s['version']}", what=f"assembleConstants changes a value / behaviour: {what}"[:400],
@@ -208,6 +250,12 @@ def run(report: Report, tier, seed):
 
 def replay(data):
     r = data["replay"]
+    nat = (r.get("native") or {}).get("input") if isinstance(r, dict) else None
+    if nat:
+        r = {"kind": "many", "job": nat["many"]} if "many" in nat else {"kind": "generated", "spec": nat["spec"]}
+    if "kind" not in r:
+        print("no concrete input; refuted:", [x["id"] for x in r.get("refuted", [])])
+        return 1
     if r["kind"] == "many":
         out = many_constants_case(tuple(r["job"]))
         print(out["problems"][:3])
